@@ -542,6 +542,28 @@ def run_settings(acc):
                 o = render(lambda: str(q))
                 if o[0] != "ok":
                     acc.violation(["settings", "D", "formatting-raises", "str(q)"], {"default_format": dfmt, "separate_format_defaults": sep}, "a string", o[1])
+    # an empty spec means "the default format" — the whole of it, the '#' compaction modifier and the magnitude part included
+    for nt in ("float", "Decimal", "Fraction"):
+        ureg = regs.default(nt, fresh=True)
+        T = {"float": float, "Decimal": Decimal, "Fraction": Fraction}[nt]
+        qs = [ureg.Quantity(T("0.00000025") if nt != "Fraction" else Fraction(1, 4000000), "meter/second"), ureg.Quantity(T("12345.678") if nt != "Fraction" else Fraction(12345678, 1000), "gram"), ureg.Quantity(T(3), "kilometer")]
+        for dfmt in ("~P", "#~P", "#.1f~P", ".3e~C", "#D", "#~C", ".2f", "#", "~L", "#H"):
+            if nt == "Fraction" and any(ch in dfmt for ch in ".ef"):
+                continue
+            for qi, q in enumerate(qs):
+                acc.ev()
+                acc.nt(("default-format", nt, dfmt, qi))
+                explicit = render(lambda: format(q, dfmt))
+                ureg.formatter.default_format = dfmt
+                try:
+                    got = [render(lambda: format(q, "")), render(lambda: str(q)), render(lambda: f"{q}")]
+                finally:
+                    ureg.formatter.default_format = ""
+                case = {"registry": nt, "default_format": dfmt, "quantity": repr(q)}
+                for how, g in zip(("format(q, '')", "str(q)", "f-string"), got):
+                    if g != explicit:
+                        acc.violation(["settings", fam(dfmt), "empty-spec-differs-from-the-default-format-given-explicitly", "#" if "#" in dfmt else "plain"], dict(case, how=how), explicit[1], g[1])
+                        break
     acc.sample({"clause": "settings", "default_format": "~P", "sort": "by-dimensionality", "spec": "H"})
 
 
